@@ -5,7 +5,7 @@ Mirrors
 * `Node::display_context`           crates/core/src/node.rs:254-295
 * `get_range`, `MatchJSON::new`     crates/cli/src/print/json_print.rs:132-168
 * `MatchMerger`                     crates/cli/src/print/colored_print/match_merger.rs:14-70
-* `PrintStyles::push_matched_to_ret` (no colour) crates/cli/src/print/colored_print/styles.rs:62-76
+* `PrintStyles::push_matched_to_ret` (no colour) crates/cli/src/print/colored_print/styles.rs:62-81
 * `print_matches_with_prefix`       crates/cli/src/print/colored_print.rs:335-382
 
 A node is its byte range `(start, stop)`; tree-sitter's row of a byte offset is `lineOf`
@@ -139,8 +139,18 @@ def joinLines : List Bytes → Bytes
   | [l] => l
   | l :: ls => l ++ NL :: joinLines ls
 
-/-- `push_matched_to_ret(ret, matched)` without colour: appends `matched.lines()` joined by `\n` -/
-def pushMatched (ret matched : Bytes) : Bytes := ret ++ joinLines (strLines matched)
+/-- `matched.ends_with('\n')` -/
+def endsWithNL (s : Bytes) : Bool := s.getLast? == some NL
+
+/-- `push_matched_to_ret(ret, matched)` without colour: nothing for a text without lines;
+otherwise `matched.lines()` joined by `\n`, then the `\n` that `lines()` swallowed when
+`matched` ends with one (crates/cli/src/print/colored_print/styles.rs:62-81, after 0b29009) -/
+def pushMatched (ret matched : Bytes) : Bytes :=
+  match strLines matched with
+  | [] => ret                                   -- `else { return Ok(()) }`
+  | l :: ls =>
+    let ret := ret ++ joinLines (l :: ls)
+    if endsWithNL matched then ret ++ [NL] else ret
 
 /-- one output line of the report -/
 inductive ReportLine where
